@@ -190,6 +190,7 @@ type rq struct {
 	res                   engine.Result
 	atRemove, remReleased bool
 
+	overtakes    bool // arrived with a better priority while a worse request had already been blocked at the head
 	handled      bool // the controller has processed its verdict
 	removed      bool
 	blockedTicks int       // ticks survived as a waiter while the tick ended blocked
@@ -555,6 +556,12 @@ func (x *executor) arrive(st step) error {
 		}
 		x.class("arrive:registered")
 		x.tracef("arrive %s prio=%q -> waits", id, st.Prio)
+		for _, w := range x.waiting() {
+			if w != r && w.blockedTicks > 0 && better(r, w) {
+				x.class("arrive:better-priority-behind-a-blocked-head")
+				r.overtakes = true
+			}
+		}
 		if len(x.heldSlotsExcept(r)) > 0 {
 			x.class("registered-while-another-is-between-check-and-registration")
 			x.rep.NonTrivial = true
@@ -770,6 +777,14 @@ func (x *executor) observeTick(now time.Time, before []*rq, draining bool) error
 	for _, r := range before {
 		if !isOut[r.ID] {
 			after = append(after, r)
+		}
+	}
+	for _, a := range admitted {
+		if a.overtakes {
+			x.class("tick:late-better-priority-admitted-first")
+		}
+		if a.blockedTicks > 0 && len(after) > 0 {
+			x.class("tick:window-reopens-with-several-waiters")
 		}
 	}
 	for _, a := range admitted {
@@ -1189,37 +1204,53 @@ func TestMain(m *testing.M) {
 func genSched() *rapid.Generator[sched] {
 	return rapid.Custom(func(t *rapid.T) sched {
 		sc := sched{Config: config{
-			Max:     rapid.IntRange(1, 3).Draw(t, "max"),
-			WindowS: rapid.SampledFrom([]int{1, 2, 2, 3}).Draw(t, "window"),
-			Size:    rapid.IntRange(1, 4).Draw(t, "size"),
+			Max:     rapid.SampledFrom([]int{1, 1, 1, 2, 2, 3}).Draw(t, "max"),
+			WindowS: rapid.SampledFrom([]int{1, 1, 2, 3}).Draw(t, "window"),
+			Size:    rapid.SampledFrom([]int{1, 2, 2, 3, 3, 3, 4, 4, 4}).Draw(t, "size"),
 			StartMs: rapid.SampledFrom([]int{0, 0, 300, 950}).Draw(t, "startms"),
 			TTL:     3600,
 		}}
 		// a palette per case: many equal priorities (arrival order matters) or many different ones
 		palette := rapid.SampledFrom([][]string{
-			{"low"}, {"high", "low"}, {"mid", "mid", "low"}, {"", "other"},
+			{"low"}, {"high", "low"}, {"low", "mid", "high"}, {"mid", "mid", "low"}, {"", "other"},
 			{"high", "mid", "low", "low", "mid", "high", "", "other"},
 		}).Draw(t, "palette")
-		stepGen := rapid.Custom(func(t *rapid.T) step {
-			switch k := rapid.IntRange(0, 19).Draw(t, "op"); {
-			case k < 10:
-				return step{Op: "arrive",
-					Prio:       rapid.SampledFrom(palette).Draw(t, "prio"),
-					Hold:       rapid.IntRange(0, 5).Draw(t, "hold") == 5,
-					HoldRemove: rapid.IntRange(0, 5).Draw(t, "holdrm") == 5}
-			case k < 16:
-				return step{Op: "tick",
-					N: rapid.SampledFrom([]int{1, 1, 1, 2, 3, 5, 9, 10 * sc.Config.WindowS, 10*sc.Config.WindowS + 1}).Draw(t, "ticks")}
-			case k < 18:
-				return step{Op: "release", N: rapid.IntRange(0, 3).Draw(t, "which")}
+		w10 := 10 * sc.Config.WindowS
+		loose := rapid.Custom(func(t *rapid.T) step {
+			if rapid.Bool().Draw(t, "rm") {
+				return step{Op: "remove", N: rapid.IntRange(0, 3).Draw(t, "which")}
 			}
-			return step{Op: "remove", N: rapid.IntRange(0, 3).Draw(t, "which")}
+			return step{Op: "release", N: rapid.IntRange(0, 3).Draw(t, "which")}
 		})
-		sc.Steps = rapid.SliceOfN(stepGen, 1, 24).Draw(t, "steps")
+		// a round: a burst of arrivals, then the loop runs (one tick, a few, or up to the next window)
+		round := rapid.Custom(func(t *rapid.T) []step {
+			out := []step{}
+			na := rapid.SampledFrom([]int{0, 1, 1, 2, 2, 3, 4}).Draw(t, "arrivals")
+			for i := 0; i < na; i++ {
+				out = append(out, step{Op: "arrive",
+					Prio:       rapid.SampledFrom(palette).Draw(t, "prio"),
+					Hold:       rapid.IntRange(0, 7).Draw(t, "hold") == 7,
+					HoldRemove: rapid.IntRange(0, 7).Draw(t, "holdrm") == 7})
+				if rapid.IntRange(0, 9).Draw(t, "loose1") == 9 {
+					out = append(out, loose.Draw(t, "l1"))
+				}
+			}
+			if rapid.IntRange(0, 5).Draw(t, "noticks") != 5 {
+				out = append(out, step{Op: "tick",
+					N: rapid.SampledFrom([]int{1, 1, 1, 2, 3, 9, w10 - 1, w10, w10 + 1}).Draw(t, "ticks")})
+			}
+			if rapid.IntRange(0, 5).Draw(t, "loose2") == 5 {
+				out = append(out, loose.Draw(t, "l2"))
+			}
+			return out
+		})
+		for _, r := range rapid.SliceOfN(round, 1, 8).Draw(t, "rounds") {
+			sc.Steps = append(sc.Steps, r...)
+		}
 		if rapid.IntRange(0, 3).Draw(t, "tail") == 0 {
 			k := rapid.IntRange(1, 2).Draw(t, "ntail")
 			for i := 0; i < k; i++ {
-				sc.Tail = append(sc.Tail, step{Op: "arrive", Prio: rapid.SampledFrom([]string{"high", "low", ""}).Draw(t, "tprio")})
+				sc.Tail = append(sc.Tail, step{Op: "arrive", Prio: rapid.SampledFrom(palette).Draw(t, "tprio")})
 			}
 		}
 		sc.KeepHeld = rapid.Bool().Draw(t, "keepheld")
